@@ -24,7 +24,7 @@ ASSUMPTIONS = ["custom parsers in the alphabet are idempotent (abs, strip): the 
 
 def plan(tier, seed):
     cases = espace.plan_shards(tier, parsers=True)
-    pol = espace.plan_shards(tier, parsers=True, bases=["frame", "column"], extra={"backend": "polars"}, quick_pairs=())
+    pol = espace.plan_shards(tier, parsers=True, bases=["frame", "column", "frame_parsing"], extra={"backend": "polars"}, quick_pairs=())
     return {"cases": cases + pol, "exhaustive": True, "bounds": dict(espace.BOUNDS_TEXT, tier=tier),
             "rule": "state = distinct (schema, table) pair; validated eagerly and lazily; non-trivial = validate returned an "
                     "object that differs from the input (a parser changed the data)"}
